@@ -60,9 +60,9 @@ UNITS = {
     'U-join': dict(functions='functions::strings::join', cls='bounded (3 one-byte strings, one-byte delimiter; empty; non-string; unresolved)',
                    quick=reg(FS, ['k_join']), thorough=[], assumptions=STUBS, timeout=600),
     'U-cnf': dict(functions='eval::eval_conjunction_clauses (real generic code, T = forced leaf)',
-                  cls='bounded (all shapes <= 2 lines x <= 3 alternatives quick; <= 3 x 3 thorough; every leaf in PASS/FAIL/SKIP/Err)',
-                  quick=reg(EV, ['k_cnf_0', 'k_cnf_1_1', 'k_cnf_1_2', 'k_cnf_1_3', 'k_cnf_2_1', 'k_cnf_2_2', 'k_cnf_2_3']),
-                  thorough=reg(EV, ['k_cnf_3_1', 'k_cnf_3_2', 'k_cnf_3_3']),
+                  cls='bounded (all shapes of 1 line x <= 3 alternatives and 2 lines x <= 2 alternatives quick; 2 x <= 3 and 3 x <= 2 thorough; every leaf in PASS/FAIL/SKIP/Err)',
+                  quick=reg(EV, ['k_cnf_0', 'k_cnf_1_1', 'k_cnf_1_2', 'k_cnf_1_3', 'k_cnf_2_1q', 'k_cnf_2_2q']),
+                  thorough=reg(EV, ['k_cnf_2_1', 'k_cnf_2_2', 'k_cnf_2_3', 'k_cnf_3_1', 'k_cnf_3_2']),
                   assumptions=[STUBS[0], 'leaf evaluators are pure status sources (their own records are their business: clause_post)'], timeout=900, mem_gb=8),
     'U-cmp-int': dict(functions='path_value::compare_values/compare_eq/compare_lt/le/gt/ge on Int', cls='complete (all i64 x i64)',
                       quick=reg(PV, ['k_cmp_int']), thorough=[], assumptions=STUBS, timeout=300),
